@@ -656,3 +656,117 @@ func globalMapKeys(v ssa.Value) map[string]bool {
 	}
 	return keys
 }
+
+// TABLE/method-rewrite (C17): methodNotFound has the fixed status 404. The
+// handler replaces an error by methodNotAllowed (405) in two places only: for
+// an HTTP method that has no mapping at all, and for a mapped method (PUT,
+// DELETE, PATCH) whose call method the service does not know. Neither may be
+// reachable for GET, HEAD or POST: every path to a use of ErrMethodNotAllowed
+// in code that can see the request's method has established that the method is
+// none of these three.
+func ruleMethodRewrite(c *Ctx) {
+	p := c.P
+	fixed := map[string]bool{"GET": true, "HEAD": true, "POST": true}
+	isMethodField := func(f *types.Var) bool {
+		return f != nil && f.Name() == "Method" && f.Pkg() != nil && f.Pkg().Path() == "net/http"
+	}
+	isUse := func(in ssa.Instruction) bool {
+		u, ok := in.(*ssa.UnOp)
+		if !ok || u.Op != token.MUL {
+			return false
+		}
+		g, ok := u.X.(*ssa.Global)
+		return ok && g.Name() == "ErrMethodNotAllowed" && g.Pkg != nil && g.Pkg.Pkg.Name() == "reserr"
+	}
+	seesMethod := func(fn *ssa.Function) bool {
+		for _, g := range WithClosures(TopLevel(fn)) {
+			for _, in := range instrsOf(g) {
+				if v, ok := in.(ssa.Value); ok {
+					if f, _ := fieldLoad(v); isMethodField(f) {
+						return true
+					}
+				}
+			}
+		}
+		return false
+	}
+	n := 0
+	for _, fn := range p.Repo {
+		if fn.Pkg == nil && fn.Parent() == nil {
+			continue
+		}
+		has := false
+		for _, in := range instrsOf(fn) {
+			if isUse(in) {
+				has = true
+			}
+		}
+		if !has || !seesMethod(fn) {
+			continue
+		}
+		n++
+		c.inst(1)
+		sp := &Spec{InlineHelpers: true}
+		sp.Classify = func(t *Tracer, fr *Frame, in ssa.Instruction) []Ev {
+			if fr == t.RootFr && isUse(in) {
+				return []Ev{{Kind: "use"}}
+			}
+			return nil
+		}
+		sp.Branch = func(t *Tracer, fr *Frame, i *ssa.If, dir bool) []Ev {
+			b, ok := i.Cond.(*ssa.BinOp)
+			if !ok || (b.Op != token.EQL && b.Op != token.NEQ) {
+				return nil
+			}
+			x, y := b.X, b.Y
+			if _, isS := constString(x); isS {
+				x, y = y, x
+			}
+			s, isS := constString(y)
+			if !isS {
+				return nil
+			}
+			f, _ := fieldLoad(t.Resolve(fr, x).V)
+			if !isMethodField(f) {
+				return nil
+			}
+			if (b.Op == token.EQL) == dir {
+				return []Ev{{Kind: "m=" + s}}
+			}
+			return []Ev{{Kind: "m!=" + s}}
+		}
+		tr := runTrace(p, fn, sp)
+		bad := ""
+		uses := 0
+		for _, path := range tr.Paths {
+			ui := indexKind(path, "use")
+			if ui < 0 {
+				continue
+			}
+			uses++
+			okPath := false
+			neg := 0
+			for _, e := range path[:ui] {
+				if strings.HasPrefix(e.Kind, "m=") && !fixed[e.Kind[2:]] {
+					okPath = true
+				}
+				if strings.HasPrefix(e.Kind, "m!=") && fixed[e.Kind[3:]] {
+					neg++
+				}
+			}
+			if hasKind(path[:ui], "m!=GET") && hasKind(path[:ui], "m!=HEAD") && hasKind(path[:ui], "m!=POST") {
+				okPath = true
+			}
+			if !okPath {
+				bad = "an error is replaced by methodNotAllowed (405) on a path that has not excluded GET, HEAD and POST: a methodNotFound answer to such a request loses its fixed status 404: " + tr.FmtPath(path)
+			}
+		}
+		if tr.Trunc {
+			bad = "path budget exhausted"
+		}
+		c.check(bad == "", fnName(fn), "methodNotAllowed replaces an error only for a request method other than GET, HEAD and POST", p.Pos(fn.Pos()), fmt.Sprintf("%d paths, %d reach a use", len(tr.Paths), uses), bad)
+	}
+	if n == 0 {
+		c.viol("reserr.ErrMethodNotAllowed", "methodNotAllowed replaces an error only for a request method other than GET, HEAD and POST", "-", "no use in code that sees the request method found")
+	}
+}
